@@ -16,7 +16,9 @@ import time
 import traceback
 
 VERIF = os.path.dirname(os.path.dirname(os.path.abspath(__file__)))
-EVID = os.path.join(VERIF, 'evidence')
+# PYVC_EVIDENCE: scratch runs of the development tools (seeds, mutants, refactorings against a scratch worktree) write their evidence elsewhere,
+# so that they cannot clobber the evidence of /repo itself; the registered commands never set it
+EVID = os.environ.get('PYVC_EVIDENCE') or os.path.join(VERIF, 'evidence')
 REPLAY_DIR = os.path.join(EVID, 'replay')
 NATIVE_PY = '/venv/bin/python'
 
@@ -271,6 +273,10 @@ def run_property(prop, contract_module, tier='quick', seed=0, procs=None, extra_
         seen[f['name']] = ent
         if kf is not None:
             known_hit[kf['id']] = ent
+        elif f['kind'] == 'sufficient' and not confirmed:
+            # the obligation is only a SUFFICIENT condition of the property (e.g. "no function writes shared state" for purity): when it
+            # fails and the native replay finds no behavioural difference, the argument is lost but the property is not shown to be violated
+            undecided.append(dict(f, note='sufficient condition fails, no behavioural difference found natively (replay %s): %s' % (path, str(f.get('model'))[:160])))
         else:
             violations.append(ent)
 
